@@ -6,7 +6,7 @@
    directory and, by [crash_closed], of every state reachable by workloads and crashes — so all
    theorems apply to arbitrary histories of runs, crashes and restarts. *)
 From Coq Require Import List Bool NArith Arith.
-From PV Require Import C16.Model C16.Proofs C16.ProofsCodec C16.ProofsStore C16.ProofsText.
+From PV Require Import C16.Model C16.Proofs C16.ProofsCodec C16.ProofsStore C16.ProofsText C16.Concurrent.
 Import ListNotations.
 
 (* The empty directory satisfies the invariant. *)
@@ -78,6 +78,15 @@ Theorem name_implies_committed :
     resolve_name (crash_w f0 w k torn) name = Some K ->
     resolve_name f0 name = Some K \/ committed_in (firstn k (trace w f0)) K = true.
 Proof. exact name_implies_committed_lemma. Qed.
+
+(* The same for ANY symlink to a key directory — the name layer of the top level context and of every
+   subcontext (models/<name>, subcontexts/<s>/models/<name>, hence also the 'final' and 'input' entries):
+   a link that appears points to a key committed before. *)
+Theorem link_implies_committed :
+  forall (f0 : fs) (w : list witem) (k : nat) (torn : option nat) (p : path) (K : N),
+    lookup (crash_w f0 w k torn) p = Some (Link (key_dir K)) ->
+    lookup f0 p = Some (Link (key_dir K)) \/ committed_in (firstn k (trace w f0)) K = true.
+Proof. exact link_implies_committed_lemma. Qed.
 
 (* ---- the dataset store (.datasets) -------------------------------------------------------- *)
 (* [J f]: every node has the kind its name says, parents are directories, links point to directories
@@ -223,3 +232,31 @@ Theorem log_survives_untorn_crash :
     forallb item_log_ok w = true -> log_state rows f0 ->
     exists n, log_state (rows ++ firstn n (log_rows w)) (crash_w f0 w k None).
 Proof. exact log_survives_lemma. Qed.
+
+(* ---- tool results of a context (results.json) ---------------------------------------------- *)
+(* Whatever results a reader of a context (top level or subcontext) obtains after ANY crash, torn or not,
+   were readable before the workload or were stored COMPLETELY by a store_results of that very context in
+   the workload: a cut results.json is never taken for a result (it does not parse).  What is NOT
+   guaranteed — the file is rewritten in place — is that results stored earlier survive a crash during a
+   later store_results: Refuted.torn_results_refuted. *)
+Theorem results_provenance :
+  forall (f0 : fs) (w : list witem) (k : nat) (torn : option nat) (c : option str) (id : N),
+    snd (retrieve_results c (crash_w f0 w k torn)) = inr id ->
+    snd (retrieve_results c f0) = inr id \/ In (WResults c id) w.
+Proof. exact results_provenance_lemma. Qed.
+
+(* ---- two concurrent writers ---------------------------------------------------------------- *)
+(* Two processes store different models into the same database at the same time.  Every system call before
+   the database lock is a step of its own, the locked section is one step (mutual exclusion of the locked
+   sections is property C15).  Bounded statement (closed by enumeration): for EVERY schedule of 12 steps —
+   enough for both writers to finish; 4096 schedules per instance — both writers succeed and the final file
+   system is exactly that of one of the two serial orders, for a pair of models sharing the dataset, a pair
+   with different datasets (from a freshly initialised context) and a pair stored after a third model. *)
+Theorem two_writers_serializable_bounded :
+  forall sched : list bool, length sched = 12 ->
+    serial_ok cP cI f_init sched = true /\ serial_ok cP cD f_init sched = true /\ serial_ok cI cD f_one sched = true.
+Proof.
+  intros sched H. destruct serial_all_schedules as [H1 [H2 H3]].
+  pose proof (all_scheds_complete 12 sched H) as Hin.
+  rewrite forallb_forall in H1, H2, H3. auto.
+Qed.
